@@ -211,6 +211,33 @@ theorem c08_wf : Elems.WF c08Outer := by
   simp only [c08Outer, c08Inner, Elems.WF, Elem.WF, and_true]
   exact ⟨⟨hm, by decide⟩, ⟨hm, by decide⟩, by decide +kernel⟩
 
+/-- **bundle_output_composes** — bottom-up composition: what `rtosc_bundle` itself leaves in a
+    buffer at least 4 bytes larger than the bundle (`r.buf`, the block a caller hands on as an
+    element of the next level) holds the encoding of the bundle *and* goes on with a zero word,
+    i.e. it meets the precondition of `bundle_eq_spec_partial` one level up (no K4 trigger).  By
+    induction over the nesting this is why a tree built bottom-up with `rtosc_bundle`, every nested
+    bundle into a block of capacity ≥ size + 4, is encoded exactly. -/
+theorem bundle_output_composes (es : List Elem) (blks : List Bytes) (tt : UInt64) (buf : Bytes)
+    (hwf : Elems.WF es) (hb : BlocksHold es blks) (hk4 : ¬ NestedUnterminated es blks)
+    (hsz : (Spec.encodeElem (.bundle tt es)).length < 4294967296)
+    (hfit : (Spec.encodeElem (.bundle tt es)).length + 4 ≤ buf.length) :
+    ∃ r, bundle buf tt blks = .ok r ∧ Elem.Holds r.buf (.bundle tt es) ∧
+      Elem.Terminated r.buf (.bundle tt es) ∧ Elem.WF (.bundle tt es) := by
+  refine ⟨_, bundle_eq_spec_partial es blks tt buf hwf hb hk4 hsz (by omega), ⟨_, rfl⟩, ?_, ?_⟩
+  · intro _
+    obtain ⟨k, hk⟩ : ∃ k, buf.length - (Spec.encodeElem (.bundle tt es)).length = k + 4 :=
+      ⟨buf.length - (Spec.encodeElem (.bundle tt es)).length - 4, by omega⟩
+    simp only [List.drop_left, hk]
+    simp [zeros, List.replicate_succ]
+  · simp only [Elem.WF]; exact ⟨hwf, hsz⟩
+
+/-- two levels, concretely: the inner bundle as `rtosc_bundle` writes it into 40 bytes is accepted
+    as an element by the outer call -/
+example : (match bundle (List.replicate 40 170) 0xdeadbeefcafebaad [c08MsgBytes] with
+    | .ok r => (match bundle (List.replicate 80 170) 1 [c08MsgBytes, r.buf] with
+               | .ok r2 => some (r2.ret, r2.oob) | _ => none)
+    | _ => none) = some (76, false) := by decide +kernel
+
 /-- the message in an exact-size block, the nested bundle in a block that goes on with a zero word -/
 def c08Blocks : List Bytes := [c08MsgBytes, c08InnerBytes ++ [0, 0, 0, 0, 9]]
 
